@@ -145,7 +145,7 @@ func C03(c *run.Check) {
 			}
 		}
 	}
-	c.Rule = fmt.Sprintf("forests with <=%d nodes over {a,b,text,comment,PI} x decorations D0-D2, D5: %d multi-step paths over 13 axes x {node(),*} (and attribute/namespace steps after reverse axes, and 10 step forms x 7 predicates after multi-node context sets) from EVERY context node; forests with <=%d nodes x D0-D2, D5: %d paths, pairwise unions, count() of unions and association shapes from the root. Oracle on the implementation's own answer: no node twice, no foreign cursor, strictly monotone in document order, ascending without reverse axis and for unions; plus identity-set equality with the reference (union = sorted set union, count = inclusion-exclusion). non-trivial = distinct (expression, context kind, non-empty size)", n, len(fromAll), n+1, len(fromRoot))
+	c.Rule = fmt.Sprintf("forests with <=%d nodes over {a,b,text,comment,PI} x decorations D0-D2, D5: %d multi-step paths over 13 axes x {node(),*} (and attribute/namespace steps after reverse axes, and 10 step forms x 7 predicates after multi-node context sets) from EVERY context node; forests with <=%d nodes x D0-D2, D5: %d paths, pairwise unions, count() of unions and association shapes from the root; every ordered forest of 4-6 (thorough: 7) elements x all one- and two-step paths over 13 axes from EVERY context node (subtrees of depth >=3 beside and above the context node). Oracle on the implementation's own answer: no node twice, no foreign cursor, strictly monotone in document order, ascending without reverse axis and for unions; plus identity-set equality with the reference (union = sorted set union, count = inclusion-exclusion). non-trivial = distinct (expression, context kind, non-empty size)", n, len(fromAll), n+1, len(fromRoot))
 	shapesA := c01Shapes(n)
 	shapesB := c01Shapes(n + 1)
 	decos := []int{adoc.D0, adoc.D1, adoc.D2, adoc.D5}
@@ -178,6 +178,25 @@ func C03(c *run.Check) {
 	r.runGrid(len(ja), func(i int) *adoc.Doc { return adoc.Instantiate(ja[i].f, ja[i].deco) }, fromAll, nil)
 	rootOnly := func(n *adoc.Node) bool { return n.Kind == adoc.Root }
 	r.runGrid(len(jb), func(i int) *adoc.Doc { return adoc.Instantiate(jb[i].f, jb[i].deco) }, fromRoot, rootOnly)
+	// deeper trees: every ordered forest of up to 6 (thorough: 7) elements, so that
+	// subtrees of depth 3 and more hang off preceding / following siblings and
+	// ancestors; all one- and two-step paths from every context node
+	{
+		dn := 6
+		if !c.Quick() {
+			dn = 7
+		}
+		deep := adoc.Forests(dn, adoc.ShapeCfg{Names: []string{"a"}})
+		var keep [][]*adoc.Tm
+		for _, f := range deep {
+			if treeSize(f) > n { // smaller ones are covered above
+				keep = append(keep, f)
+			}
+		}
+		deepPaths := mustParse(c03Paths(2))
+		r.runGrid(len(keep), func(i int) *adoc.Doc { return adoc.Instantiate(keep[i], adoc.D0) }, deepPaths, nil)
+		c.Set("deep_element_forests_all_contexts", len(keep))
+	}
 	for i := 7; i < len(jb); i += len(jb)/6 + 1 {
 		c.Sample(map[string]string{"doc": adoc.Instantiate(jb[i].f, jb[i].deco).String(), "expr": fromRootT[(i*131)%len(fromRootT)]})
 	}
